@@ -428,10 +428,17 @@ def gen_C08(rng, tier):
         r = rng.random()
         if r < 0.6:
             uids += add_applies(rng, c, ops, 1, mk=lambda: prog_long(rng, rng.choice([0.05, 0.5, 2.0, 6.0])))
-        elif r < 0.8:
+        elif r < 0.7:
             uids += add_applies(rng, c, ops, 1, mk=lambda: [['try', [['raise', 'ValueError']],
                                                              [['tick', 2], ['sleep', rng.choice([0.5, 3.0])],
                                                               ['tick', 2], ['ret', 7]]]])
+        elif r < 0.8:
+            # a task with a catch-all handler that turns whatever interrupts it into its own exception (or
+            # swallows it and returns): the termination request must still take effect
+            uids += add_applies(rng, c, ops, 1, mk=lambda: [['try', prog_long(rng, rng.choice([0.5, 2.0, 6.0]))[:-1],
+                                                             [rng.choice([['raise', 'TaskError'], ['ret', 9],
+                                                                          ['raise', 'TaskBaseError']])]],
+                                                            ['ret', 3]])
         elif pc['threads']:
             add_map(rng, c, ops, n=rng.choice([2, 5, 9]),
                     mkitem=lambda: prog_ok(rng, maxticks=2, sleep=rng.choice([0.05, 0.5])))
